@@ -30,7 +30,7 @@ func Parse(query string) (Query, error) {
 	}
 
 	trimmed = strings.TrimSuffix(trimmed, ";")
-	lower := strings.ToLower(trimmed)
+	lower := asciiLower(trimmed)
 	fields := strings.Fields(lower)
 	if len(fields) == 0 {
 		return Query{}, fmt.Errorf("empty query")
@@ -48,6 +48,18 @@ func Parse(query string) (Query, error) {
 	default:
 		return Query{Type: QueryUnknown}, fmt.Errorf("unsupported statement")
 	}
+}
+
+// asciiLower lower-cases the ASCII letters only, so the result has the same byte length as the input: keyword
+// positions found in it are valid positions of the original text (strings.ToLower can change the length).
+func asciiLower(s string) string {
+	b := []byte(s)
+	for i := 0; i < len(b); i++ {
+		if b[i] >= 'A' && b[i] <= 'Z' {
+			b[i] += 'a' - 'A'
+		}
+	}
+	return string(b)
 }
 
 func parseShow(fields []string) (Query, error) {
@@ -69,7 +81,7 @@ func parseDescribe(fields []string) (Query, error) {
 
 func parseExplain(raw string) (Query, error) {
 	trimmed := strings.TrimSpace(raw)
-	lower := strings.ToLower(trimmed)
+	lower := asciiLower(trimmed)
 	if !strings.HasPrefix(lower, "explain") {
 		return Query{Type: QueryUnknown}, fmt.Errorf("invalid explain")
 	}
